@@ -249,11 +249,11 @@ func (m *Machine) Decide(cond *smt.Term) bool {
 		return cond.C == 1
 	}
 	p := m.path
-	if p.pcSet[cond] {
+	if m.impliedSyntactically(cond) {
 		return true
 	}
 	neg := m.ctx.Not(cond)
-	if p.pcSet[neg] {
+	if m.impliedSyntactically(neg) {
 		return false
 	}
 	if m.merge != nil {
@@ -456,11 +456,32 @@ func (m *Machine) Assume(cond *smt.Term) {
 // fresh variables): never makes a satisfiable path condition unsatisfiable.
 func (m *Machine) Axiom(t *smt.Term) { m.path.addPC(t) }
 
+// impliedSyntactically: cond is a conjunct of the path condition, or a conjunction /
+// negated disjunction whose parts all are.
+func (m *Machine) impliedSyntactically(cond *smt.Term) bool {
+	p := m.path
+	if cond.IsTrue() || p.pcSet[cond] {
+		return true
+	}
+	switch cond.Op {
+	case smt.OAnd:
+		return m.impliedSyntactically(cond.Args[0]) && m.impliedSyntactically(cond.Args[1])
+	case smt.ONot:
+		if in := cond.Args[0]; in.Op == smt.OOr {
+			return m.impliedSyntactically(m.ctx.Not(in.Args[0])) && m.impliedSyntactically(m.ctx.Not(in.Args[1]))
+		}
+	case smt.OOr:
+		return m.impliedSyntactically(cond.Args[0]) || m.impliedSyntactically(cond.Args[1])
+	}
+	return false
+}
+
 // Assert checks a verification condition.
 func (m *Machine) Assert(cond *smt.Term, label, pos string) {
 	p := m.path
 	p.VCs++
-	if cond.IsTrue() {
+	if cond.IsTrue() || m.impliedSyntactically(cond) {
+		// trivially true, or literally a conjunct of the path condition
 		p.VCsUnsat++
 		p.Events = append(p.Events, Event{Kind: "assert-ok", Label: label, Pos: pos})
 		return
